@@ -55,6 +55,22 @@ struct Worker {
     rx: mpsc::Receiver<Option<String>>,
 }
 
+/// JSON string escaping for the family names printed in the statistics line
+fn json_escape(s: &str) -> String {
+    let mut o = String::new();
+    for c in s.chars() {
+        match c {
+            '"' => o.push_str("\\\""),
+            '\\' => o.push_str("\\\\"),
+            '\n' => o.push_str("\\n"),
+            '\t' => o.push_str("\\t"),
+            c if (c as u32) < 0x20 => o.push_str(&format!("\\u{:04x}", c as u32)),
+            c => o.push(c),
+        }
+    }
+    o
+}
+
 fn spawn_worker(prop: &str) -> Worker {
     let exe = std::env::current_exe().unwrap();
     // the worker runs under an address-space cap (4 GiB): a runaway allocation in the code under
@@ -289,7 +305,7 @@ fn main() {
             // statistics for the evidence file
             let fam: Vec<String> = families
                 .iter()
-                .map(|(name, cnt, exh)| format!("{{\"family\":\"{}\",\"cases\":{},\"exhaustive\":{}}}", name, cnt, exh))
+                .map(|(name, cnt, exh)| format!("{{\"family\":\"{}\",\"cases\":{},\"exhaustive\":{}}}", json_escape(name), cnt, exh))
                 .collect();
             println!("{{\"cases\":{},\"corpus\":{},\"families\":[{}]}}", n, ncorpus, fam.join(","));
         }
